@@ -90,13 +90,29 @@ def make_case(rng):
             case["clauses"].append([k, names])
             cur = [c for c in cur if c[2] == "Identifier" or ((c[0] in names) == (k == "keep"))]
         elif k == "rename":
-            sel = rng.sample(cur, rng.randint(1, min(2, len(cur))))
-            pairs = []
-            for c in sel:
-                new = f"{'Id' if c[2] == 'Identifier' else 'Me'}_r{nfix}"
-                nfix += 1
-                pairs.append([c[0], new])
-                c[0] = new
+            style = rng.random()
+            same_role = [c for c in non] if len(non) >= 2 else []
+            if style < 0.35 and len(same_role) >= 2:
+                # simultaneous renames whose targets are also sources: swap (a->b, b->a) or shift (a->b, b->fresh)
+                a, b = rng.sample(same_role, 2)
+                if rng.random() < 0.5:
+                    pairs = [[a[0], b[0]], [b[0], a[0]]]
+                    a[0], b[0] = b[0], a[0]
+                else:
+                    fresh = f"Me_r{nfix}"
+                    nfix += 1
+                    pairs = [[a[0], b[0]], [b[0], fresh]]
+                    a[0], b[0] = b[0], fresh
+                    if rng.random() < 0.5:
+                        pairs.reverse()
+            else:
+                sel = rng.sample(cur, rng.randint(1, min(2, len(cur))))
+                pairs = []
+                for c in sel:
+                    new = f"{'Id' if c[2] == 'Identifier' else 'Me'}_r{nfix}"
+                    nfix += 1
+                    pairs.append([c[0], new])
+                    c[0] = new
             case["clauses"].append(["rename", pairs])
         else:
             idc = rng.choice(ids)
